@@ -13,8 +13,8 @@ package main
 //          del         Delete RPC on "k" (synchronous)
 //          reload      close the swamp (flush) so that the next observation re-summons it from disk
 //     reply: T:<state> q=[guard queue, IDs relative to the case start] c=<ID counter, relative> v=<value|absent>
-//            state = F (fetched) | 1w (queued) | 1g (granted) | 2 (read) | 3 (written) | 4 (saved) |
-//                    5 r=<response> | blocked (its next action is not enabled)
+//            state = F (fetched) | 1w (queued) | 1g (granted) | 2 (read) | 3 (written) | 3w (saved, file writer pending) |
+//                    4 (saved) | 5 r=<response> by=<UpdatedBy of the response> | blocked (its next action is not enabled)
 // case N stress CFG    op: stress W K N — W goroutines × N increments (+1) over K keys through the gateway;
 //     reply: ok acked=<n> lost=<n> dup=<n> errors=<n>   (per key the responses must be exactly 1..n_k and the final value n_k)
 // case N mixed CFG     op: mixed W N SEED — W goroutines × N random set/inc/get on one key; the client-visible
@@ -67,6 +67,11 @@ func c09Gen(rng *rand.Rand, tier string, w *bufio.Writer) {
 	}
 	fmt.Fprintf(w, "case %d sched pN\nstep A\nstep B\nstep C\nstep B\nstep A\nstep A\nstep A\nstep A\nstep B\nstep B\nstep C\nstep B\nstep B\nstep C\nstep C\nstep C\nstep C\nstep C\n", c)
 	c++
+	// the response is built behind Save: A has saved, B takes the record and stamps its metadata, A answers
+	for _, cfg := range c09Cfgs {
+		fmt.Fprintf(w, "case %d sched %s\nstep A\nstep A\nstep A\nstep A\nstep B\nstep B\nstep A\nstep B\nstep B\nstep B\n", c, cfg)
+		c++
+	}
 	for _, cfg := range c09Cfgs {
 		fmt.Fprintf(w, "case %d sched %s\nfetch A\ndel\nstep A\nstep A\nstep A\nstep A\nstep A\nreload\n", c, cfg)
 		c++
@@ -80,19 +85,6 @@ func c09Gen(rng *rand.Rand, tier string, w *bufio.Writer) {
 		steps := 6 + rng.Intn(18)
 		for j := 0; j < steps; j++ {
 			t := rng.Intn(n)
-			if cfg == "p0" && pc[t] == 0 {
-				// immediate-write mode: the chronicler's own guard session inside Save must not queue behind
-				// a parked call (it would block that Save): start a call only when nobody is in front of its save
-				busy := false
-				for u := range pc {
-					if u != t && pc[u] >= 1 && pc[u] <= 3 {
-						busy = true
-					}
-				}
-				if busy {
-					continue
-				}
-			}
 			fmt.Fprintf(w, "step %s\n", c09Names[t])
 			if pc[t] < 5 {
 				pc[t]++ // upper bound (a blocked step does not advance); only used for the p0 constraint
@@ -121,6 +113,7 @@ type c09Ev struct {
 type c09Resp struct {
 	val int64
 	err bool
+	by  string // Metadata.UpdatedBy of the response: every call stamps its own name under the guard
 }
 
 type c09Thread struct {
@@ -214,7 +207,7 @@ func (st *c09State) render(t *c09Thread, blocked bool) string {
 		state = "2"
 	case "inc.written":
 		state = "3"
-	case "writer.wait":
+	case "writer.wait", "save.released":
 		state = "3w"
 	case "inc.saved":
 		state = "4"
@@ -222,7 +215,7 @@ func (st *c09State) render(t *c09Thread, blocked bool) string {
 		if t.resp.err {
 			state = "5 r=ERR"
 		} else {
-			state = "5 r=" + strconv.FormatInt(t.resp.val, 10)
+			state = "5 r=" + strconv.FormatInt(t.resp.val, 10) + " by=" + t.resp.by
 		}
 	}
 	if blocked {
@@ -235,12 +228,16 @@ func (st *c09State) spawn(t *c09Thread) {
 	go func() {
 		st.threads.Register(t.name)
 		defer st.threads.Unregister()
-		resp, err := st.rig.GW.IncrementInt64(context.Background(), &hydrapb.IncrementInt64Request{IslandID: 1, SwampName: st.swamp, Key: "k", IncrementBy: t.d})
+		who := t.name
+		meta := &hydrapb.IncrementRequestMetadata{UpdatedBy: &who}
+		resp, err := st.rig.GW.IncrementInt64(context.Background(), &hydrapb.IncrementInt64Request{IslandID: 1, SwampName: st.swamp, Key: "k", IncrementBy: t.d,
+			SetIfExist: meta, SetIfNotExist: meta})
 		r := c09Resp{}
 		if err != nil || resp == nil {
 			r.err = true
 		} else {
 			r.val = resp.GetValue()
+			r.by = resp.GetMetadata().GetUpdatedBy()
 		}
 		st.done <- c09Done{th: t.name, resp: r}
 	}()
@@ -250,6 +247,7 @@ func (st *c09State) spawn(t *c09Thread) {
 // including a waiter that the last release made head of the guard queue.
 func (st *c09State) settle() bool {
 	deadline := time.After(c09StepTimeout)
+	quiet := false
 	for {
 		running := false
 		st.mu.Lock()
@@ -269,13 +267,54 @@ func (st *c09State) settle() bool {
 				}
 			}
 		}
-		st.mu.Unlock()
+		var startWriter *c09Thread
 		if !running {
-			return true
+			// a call parked right after its in-save release starts its file writer once no other writer is pending
+			pending := false
+			for _, t := range st.th {
+				if t.at == "writer.wait" || (t.at == "inc.written" && t.wgid != 0) {
+					pending = true
+				}
+			}
+			if !pending {
+				for _, n := range st.order {
+					if t := st.th[n]; t != nil && t.at == "save.released" && t.wgid == 0 {
+						startWriter = t
+						break
+					}
+				}
+			}
+			if startWriter != nil {
+				startWriter.running = true
+				startWriter.at = "inc.written"
+				startWriter.wgid = -1 // writer started; the session ID arrives with guard.enq
+				running = true
+			}
+		}
+		st.mu.Unlock()
+		if startWriter != nil {
+			startWriter.gate <- struct{}{}
+		}
+		var grace <-chan time.Time
+		if !running {
+			// nothing is known to be running: give a goroutine that was scheduled late a moment to report
+			if quiet {
+				return true
+			}
+			quiet = true
+			grace = time.After(40 * time.Millisecond)
+		} else {
+			quiet = false
 		}
 		select {
+		case <-grace:
+			continue
 		case ev := <-st.events:
+			quiet = false
 			t := st.get(ev.th)
+			if os.Getenv("C09_TRACE") != "" {
+				fmt.Fprintf(os.Stderr, "ev %s %s id=%d\n", ev.th, ev.name, ev.id)
+			}
 			if t == nil {
 				continue
 			}
@@ -298,10 +337,11 @@ func (st *c09State) settle() bool {
 				}
 				if t.wgid != 0 && t.at == "inc.written" {
 					t.at = "writer.wait"
+					t.running = false
 				} else if t.at == "" || t.at == "inc.fetched" {
 					t.at = "guard.wait"
+					t.running = false
 				}
-				t.running = false
 			case "guard.acq":
 				if t.at == "guard.wait" || t.at == "writer.wait" {
 					t.running = true
@@ -309,11 +349,12 @@ func (st *c09State) settle() bool {
 						t.at = "inc.written"
 					}
 				}
-			case "inc.fetched", "inc.acquired", "inc.read", "inc.written", "inc.saved":
+			case "inc.fetched", "inc.acquired", "inc.read", "inc.written", "inc.saved", "save.released":
 				t.at = ev.name
 				t.running = false
 			}
 		case d := <-st.done:
+			quiet = false
 			if t := st.get(d.th); t != nil {
 				t.at, t.resp, t.running = "done", d.resp, false
 			}
@@ -347,7 +388,7 @@ func (st *c09State) step(tn string, fetchOnly bool) string {
 		}
 		t.running = true
 		st.spawn(t)
-	case "guard.wait", "writer.wait", "done":
+	case "guard.wait", "writer.wait", "save.released", "done":
 		return st.render(t, true)
 	default:
 		if fetchOnly {
@@ -453,12 +494,37 @@ func (st *c09State) stress(writers, nkeys, per int) string {
 		go func(w int) {
 			defer wg.Done()
 			for i := 0; i < per; i++ {
-				k := fmt.Sprintf("s%d", (w+i)%nkeys)
-				resp, err := st.rig.GW.IncrementInt64(context.Background(), &hydrapb.IncrementInt64Request{IslandID: 1, SwampName: st.swamp, Key: k, IncrementBy: 1})
-				if err != nil || resp == nil || !resp.GetIsIncremented() {
+				ki := (w + i) % nkeys
+				k := fmt.Sprintf("s%d", ki)
+				// the Increment variants share one body shape but are ten separate functions: rotate them over the keys
+				var val int64
+				good := false
+				switch ki % 4 {
+				case 0:
+					resp, err := st.rig.GW.IncrementInt64(context.Background(), &hydrapb.IncrementInt64Request{IslandID: 1, SwampName: st.swamp, Key: k, IncrementBy: 1})
+					if err == nil && resp != nil && resp.GetIsIncremented() {
+						val, good = resp.GetValue(), true
+					}
+				case 1:
+					resp, err := st.rig.GW.IncrementUint32(context.Background(), &hydrapb.IncrementUint32Request{IslandID: 1, SwampName: st.swamp, Key: k, IncrementBy: 1})
+					if err == nil && resp != nil && resp.GetIsIncremented() {
+						val, good = int64(resp.GetValue()), true
+					}
+				case 2:
+					resp, err := st.rig.GW.IncrementUint64(context.Background(), &hydrapb.IncrementUint64Request{IslandID: 1, SwampName: st.swamp, Key: k, IncrementBy: 1})
+					if err == nil && resp != nil && resp.GetIsIncremented() {
+						val, good = int64(resp.GetValue()), true
+					}
+				default:
+					resp, err := st.rig.GW.IncrementFloat64(context.Background(), &hydrapb.IncrementFloat64Request{IslandID: 1, SwampName: st.swamp, Key: k, IncrementBy: 1})
+					if err == nil && resp != nil && resp.GetIsIncremented() {
+						val, good = int64(resp.GetValue()), true
+					}
+				}
+				if !good {
 					out <- res{key: k}
 				} else {
-					out <- res{key: k, val: resp.GetValue(), ok: true}
+					out <- res{key: k, val: val, ok: true}
 				}
 			}
 		}(w)
@@ -493,8 +559,17 @@ func (st *c09State) stress(writers, nkeys, per int) string {
 		// final value through the gateway
 		resp, err := st.rig.GW.Get(context.Background(), &hydrapb.GetRequest{Swamps: []*hydrapb.GetSwamp{{IslandID: 1, SwampName: st.swamp, Keys: []string{k}}}})
 		final := int64(-1)
-		if err == nil && resp != nil && len(resp.GetSwamps()) == 1 && len(resp.GetSwamps()[0].GetTreasures()) == 1 && resp.GetSwamps()[0].GetTreasures()[0].Int64Val != nil {
-			final = *resp.GetSwamps()[0].GetTreasures()[0].Int64Val
+		if err == nil && resp != nil && len(resp.GetSwamps()) == 1 && len(resp.GetSwamps()[0].GetTreasures()) == 1 {
+			switch tr := resp.GetSwamps()[0].GetTreasures()[0]; {
+			case tr.Int64Val != nil:
+				final = *tr.Int64Val
+			case tr.Uint32Val != nil:
+				final = int64(*tr.Uint32Val)
+			case tr.Uint64Val != nil:
+				final = int64(*tr.Uint64Val)
+			case tr.Float64Val != nil:
+				final = int64(*tr.Float64Val)
+			}
 		}
 		if final != int64(len(vs)) {
 			d := int64(len(vs)) - final
@@ -732,6 +807,13 @@ func c09Run(in *bufio.Scanner, w *bufio.Writer) {
 				return
 			}
 			if st.stopAt.Load().(string) != th {
+				return
+			}
+			fallthrough
+		case "save.released":
+			// immediate-write mode: the call has released the guard and is about to run the file writer; it starts
+			// only when no earlier call's writer is still pending (settle releases it), so the order is deterministic
+			if st.setx {
 				return
 			}
 			fallthrough
